@@ -5,12 +5,14 @@ import IstioModel.C08.Scope
 
     case <n> ...                                   -> ok      (reset)
     td <list>                                      -> ok      trust domain bundle (local first)
-    pol <ALLOW|DENY|AUDIT|CUSTOM> <ns> <name> <dry> <provider> -> ok
+    wl <root ns> <ns> <labels> [<sidecar|router|waypoint> [<svc name|objectName|ns|k8s/ext or -> [<flags: term,nosel>]]] -> ok
+    pol <ALLOW|DENY|AUDIT|CUSTOM|UNKNOWN> <ns> <name> <dry> <provider> <selector> <targetRefs> [legacy] -> ok
     rule                                           -> ok      new rule in the last policy
     from <field>=<list> ...                        -> ok      new source in the last rule
     to <field>=<list> ...                          -> ok      new operation in the last rule
     when <key> <values> <notValues>                -> ok
-    build <http|tcp> <useAuthenticated>            -> canonical S-expression of the generated filters
+    build <http|tcp|tcphttp> <useAuthenticated> [in|gw|out] -> canonical S-expression of the generated filters
+                                                      (one plugin builder per case and useAuthenticated value: lazy cache)
     req <attr>=<value> ...                         -> <decision of the generated filters> <decision of the spec>
 -/
 namespace IstioModel.C08
@@ -24,6 +26,10 @@ structure DState where
   filters : List GFilter := []
   custom : CustomOpts := { providers := [], multi := false }
   term : Bool := false
+  /-- the plugin builders of the case, per useAuthenticated value (true, false): the inputs they were
+      created with (first build) and their cache -/
+  plugT : Option ((Workload × List Str × CustomOpts × List Policy) × Plugin) := none
+  plugF : Option ((Workload × List Str × CustomOpts × List Policy) × Plugin) := none
 deriving Inhabited
 
 def S (s : Str) : String := enc (String.ofList s)
@@ -67,7 +73,7 @@ def refsOf (t : String) : List (Str × Str × Str × Str) :=
     (q.headD [], (q.drop 1).headD [], (q.drop 2).headD [], (q.drop 3).headD [])
 
 def actionOf : String → Action
-  | "DENY" => .deny | "AUDIT" => .audit | "CUSTOM" => .custom | _ => .allow
+  | "DENY" => .deny | "AUDIT" => .audit | "CUSTOM" => .custom | "UNKNOWN" => .unknown | _ => .allow
 
 /-! ### canonical printing -/
 
@@ -164,7 +170,9 @@ def parseReq (toks : List String) : Request :=
   let metas := (zip3 (gl "mf") (gl "mp") (gl "mt")).zip (gl "mv") |>.map fun e =>
     let f := e.1.1; let p := e.1.2.1; let t := e.1.2.2; let v := e.2
     ((f.toList, if p.isEmpty then [] else splitBar p),
-     if t == "l" then MVal.strs (if v.isEmpty then [] else splitBar v) else MVal.str v.toList)
+     -- leaf types: s = string, l = list (its string elements), anything else (n number, b bool) = other
+     if t == "l" then MVal.strs (if v.isEmpty then [] else splitBar v)
+     else if t == "s" then MVal.str v.toList else MVal.other)
   -- an address token: decimal IPv4 number, or `6:<decimal 128-bit number>`
   let ipTok (t : String) : IP :=
     if t.startsWith "6:" then { v6 := true, val := natTok (String.ofList (t.toList.drop 2)) } else { val := natTok t }
@@ -188,21 +196,26 @@ def step (s : DState) (toks : List String) : DState × String :=
     let https := ((L provs).filter fun n => hasPrefix "http:".toList n).map (·.drop 5)
     ({ s with custom := { providers := names, multi := tokBool multi, httpProviders := https } }, "ok")
   | "wl" :: root :: ns :: labels :: rest =>
-    -- rest: proxy type (sidecar | router | waypoint), service `name|ns|k8s` or `name|ns|ext` (or -),
-    -- `term` = NewWaypointTerminationBuilder: standard (non-waypoint) selection, no service, no filter state
-    let term := (rest.drop 2).headD "" == "term"
-    let svc : Option (Str × Str × Bool) :=
+    -- rest: proxy type (sidecar | router | waypoint); service `name|objectName|ns|k8s` / `..|ext` (or -);
+    -- flags: `term` = NewWaypointTerminationBuilder, `nosel` = EnableSelectorBasedK8sGatewayPolicy off
+    let flags := decList ((rest.drop 2).headD "-")
+    let term := flags.contains "term"
+    let svc : Option Service :=
       match splitBar (dec ((rest.drop 1).headD "-")) with
-      | [n, sns, reg] => if term then none else some (n, sns, reg == "k8s".toList)
+      | [n, on, sns, reg] => some { name := n, objectName := on, ns := sns, k8s := reg == "k8s".toList }
       | _ => none
-    ({ s with wl := { rootNs := (dec root).toList, ns := (dec ns).toList, labels := labelsOf labels,
-                      waypoint := rest.headD "" == "waypoint" && !term, service := svc },
-              term := term }, "ok")
+    let w : Workload := { rootNs := (dec root).toList, ns := (dec ns).toList, labels := labelsOf labels,
+                          waypoint := rest.headD "" == "waypoint", service := svc,
+                          selectorGatewayPolicy := !flags.contains "nosel" }
+    ({ s with wl := if term then w.termination else w, term := term }, "ok")
   | "pol" :: a :: ns :: name :: dry :: prov :: rest =>
+    let refs := refsOf ((rest.drop 1).headD "-")
+    let legacy := (rest.drop 2).headD "" == "legacy"
     ({ s with policies := s.policies ++ [{ ns := (dec ns).toList, name := (dec name).toList, action := actionOf a,
                                            dryRun := isDryRun (if dry == "0" then none else some (dec dry).toList), provider := (dec prov).toList,
                                            selector := labelsOf (rest.headD "-"),
-                                           targetRefs := refsOf ((rest.drop 1).headD "-"), rules := [] }] }, "ok")
+                                           targetRefs := if legacy then refs.drop 1 else refs,
+                                           targetRef := if legacy then refs.head? else none, rules := [] }] }, "ok")
   | ["rule"] =>
     if s.policies.isEmpty then (s, "bad-op") else
     ({ s with policies := modifyLast (fun p => { p with rules := p.rules ++ [{}] }) s.policies }, "ok")
@@ -219,9 +232,15 @@ def step (s : DState) (toks : List String) : DState × String :=
     let c : Condition := ⟨(dec key).toList, L vs, L nvs⟩
     ({ s with policies := modifyLast (fun p => { p with rules := modifyLast (fun r => { r with whens := r.whens ++ [c] }) p.rules }) s.policies }, "ok")
   | "build" :: kind :: auth :: rest =>
-    let o : BuildOpts := { bundle := s.bundle, forTCP := kind != "http", useAuth := tokBool auth || s.term,
+    let useAuth := if s.term then terminationUseAuth (tokBool auth) else tokBool auth
+    let o : BuildOpts := { bundle := s.bundle, forTCP := kind != "http", useAuth := useAuth,
                            tcpRulesAsHTTP := kind == "tcphttp" }
-    let fs := forListenerClass (kind == "http" && rest.headD "in" == "out") (compileAll s.wl o s.custom s.policies)
+    let call : Call := if kind == "tcp" then .tcp else if kind == "tcphttp" then .tcpHttp
+                       else .http (rest.headD "in" == "out")
+    let cur := if useAuth then s.plugT else s.plugF
+    let (snap, pl) := cur.getD ((s.wl, s.bundle, s.custom, s.policies), {})
+    let (pl', fs) := pl.call (buildFresh snap.1 snap.2.1 useAuth snap.2.2.1 snap.2.2.2) call
+    let s := if useAuth then { s with plugT := some (snap, pl') } else { s with plugF := some (snap, pl') }
     ({ s with opts := o, filters := fs }, showFilters fs)
   | "req" :: attrs =>
     let r := parseReq attrs
@@ -241,7 +260,7 @@ def stepHyps (s : DState) (toks : List String) : DState × String :=
     let scope := sel.all fun p => p.rules.all fun ru => ruleInScope s.opts r p.ns ru
     (s, s!"hyps={boolTok (hypsOnB s.opts sel r)} tr={boolTok (translatableB s.opts sel)} " ++
         s!"compiled={decTok (evalGs s.filters r)} spec={decTok (specDecisionOn s.wl s.bundle s.custom s.opts.forTCP s.policies r)} " ++
-        s!"mig={boolTok mig} scope={boolTok scope} peer={boolTok r.peerOK} names={boolTok (entriesDistinctB s.opts sel)}")
+        s!"mig={boolTok mig} scope={boolTok scope} names={boolTok (entriesDistinctB s.opts sel)}")
   | "build" :: _ => let (s', _) := step s toks; (s', "built")
   | _ => step s toks
 
